@@ -6,7 +6,9 @@ PATCH="$1"; TIER="$2"; shift 2
 cd /repo || exit 2
 if ! git diff --quiet; then echo "/repo has uncommitted changes; refusing" >&2; exit 2; fi
 git apply "$PATCH" || { echo "patch does not apply" >&2; exit 2; }
-trap 'git -C /repo checkout -- . ; (cd /verif/harness && cargo build --release --offline >/dev/null 2>&1)' EXIT
+# evidence and replays written while the change is applied describe the changed tree: keep them aside
+SAVE=$(mktemp -d /tmp/evidence_save.XXXX); cp -a /verif/evidence/. "$SAVE"/
+trap 'git -C /repo checkout -- . ; cp -a "$SAVE"/. /verif/evidence/; rm -rf "$SAVE"; (cd /verif/harness && cargo build --release --offline >/dev/null 2>&1)' EXIT
 for p in "$@"; do
   out=$(cd /verif && ./check "$p" --tier "$TIER" 2>&1); code=$?
   echo "== $p exit=$code"
